@@ -16,20 +16,20 @@ type Recorder struct {
 
 var _ events.DataEventReceiver = (*Recorder)(nil)
 
-func (r *Recorder) Reset()              { r.Events = r.Events[:0] }
-func (r *Recorder) add(e E)             { r.Events = append(r.Events, e) }
-func (r *Recorder) OnBeginDocument()    { r.add(E{K: BD}) }
-func (r *Recorder) OnEndDocument()      { r.add(E{K: ED}) }
-func (r *Recorder) OnVersion(v uint64)  { r.add(E{K: Version, U: v}) }
-func (r *Recorder) OnPadding()          { r.add(E{K: Padding}) }
+func (r *Recorder) Reset()                      { r.Events = r.Events[:0] }
+func (r *Recorder) add(e E)                     { r.Events = append(r.Events, e) }
+func (r *Recorder) OnBeginDocument()            { r.add(E{K: BD}) }
+func (r *Recorder) OnEndDocument()              { r.add(E{K: ED}) }
+func (r *Recorder) OnVersion(v uint64)          { r.add(E{K: Version, U: v}) }
+func (r *Recorder) OnPadding()                  { r.add(E{K: Padding}) }
 func (r *Recorder) OnComment(ml bool, c []byte) { r.add(E{K: Comment, B: ml, Data: cp(c)}) }
-func (r *Recorder) OnNull()             { r.add(E{K: Null}) }
-func (r *Recorder) OnBoolean(v bool)    { r.add(E{K: Boolean, B: v}) }
-func (r *Recorder) OnTrue()             { r.add(E{K: True}) }
-func (r *Recorder) OnFalse()            { r.add(E{K: False}) }
-func (r *Recorder) OnPositiveInt(v uint64) { r.add(E{K: PInt, U: v}) }
-func (r *Recorder) OnNegativeInt(v uint64) { r.add(E{K: NInt, U: v}) }
-func (r *Recorder) OnInt(v int64)       { r.add(E{K: Int, I: v}) }
+func (r *Recorder) OnNull()                     { r.add(E{K: Null}) }
+func (r *Recorder) OnBoolean(v bool)            { r.add(E{K: Boolean, B: v}) }
+func (r *Recorder) OnTrue()                     { r.add(E{K: True}) }
+func (r *Recorder) OnFalse()                    { r.add(E{K: False}) }
+func (r *Recorder) OnPositiveInt(v uint64)      { r.add(E{K: PInt, U: v}) }
+func (r *Recorder) OnNegativeInt(v uint64)      { r.add(E{K: NInt, U: v}) }
+func (r *Recorder) OnInt(v int64)               { r.add(E{K: Int, I: v}) }
 func (r *Recorder) OnBigInt(v *big.Int) {
 	if v == nil {
 		r.add(E{K: BigInt})
@@ -53,30 +53,32 @@ func (r *Recorder) OnBigDecimalFloat(v *apd.Decimal) {
 	}
 	r.add(E{K: BigDecimal, BDec: new(apd.Decimal).Set(v)})
 }
-func (r *Recorder) OnUID(v []byte)               { r.add(E{K: UID, Data: cp(v)}) }
-func (r *Recorder) OnNan(s bool)                 { r.add(E{K: NaN, B: s}) }
-func (r *Recorder) OnTime(t compact_time.Time)   { r.add(E{K: Time, T: t}) }
-func (r *Recorder) OnList()                      { r.add(E{K: List}) }
-func (r *Recorder) OnMap()                       { r.add(E{K: Map}) }
-func (r *Recorder) OnRecordType(id []byte)       { r.add(E{K: RecordType, Data: cp(id)}) }
-func (r *Recorder) OnRecord(id []byte)           { r.add(E{K: Record, Data: cp(id)}) }
-func (r *Recorder) OnEdge()                      { r.add(E{K: Edge}) }
-func (r *Recorder) OnNode()                      { r.add(E{K: Node}) }
-func (r *Recorder) OnEndContainer()              { r.add(E{K: End}) }
-func (r *Recorder) OnMarker(id []byte)           { r.add(E{K: Marker, Data: cp(id)}) }
-func (r *Recorder) OnReferenceLocal(id []byte)   { r.add(E{K: Ref, Data: cp(id)}) }
+func (r *Recorder) OnUID(v []byte)             { r.add(E{K: UID, Data: cp(v)}) }
+func (r *Recorder) OnNan(s bool)               { r.add(E{K: NaN, B: s}) }
+func (r *Recorder) OnTime(t compact_time.Time) { r.add(E{K: Time, T: t}) }
+func (r *Recorder) OnList()                    { r.add(E{K: List}) }
+func (r *Recorder) OnMap()                     { r.add(E{K: Map}) }
+func (r *Recorder) OnRecordType(id []byte)     { r.add(E{K: RecordType, Data: cp(id)}) }
+func (r *Recorder) OnRecord(id []byte)         { r.add(E{K: Record, Data: cp(id)}) }
+func (r *Recorder) OnEdge()                    { r.add(E{K: Edge}) }
+func (r *Recorder) OnNode()                    { r.add(E{K: Node}) }
+func (r *Recorder) OnEndContainer()            { r.add(E{K: End}) }
+func (r *Recorder) OnMarker(id []byte)         { r.add(E{K: Marker, Data: cp(id)}) }
+func (r *Recorder) OnReferenceLocal(id []byte) { r.add(E{K: Ref, Data: cp(id)}) }
 func (r *Recorder) OnArray(at events.ArrayType, n uint64, d []byte) {
 	r.add(E{K: Array, AT: at, U: n, Data: cp(d)})
 }
 func (r *Recorder) OnStringlikeArray(at events.ArrayType, d string) {
 	r.add(E{K: StrArray, AT: at, Data: []byte(d)})
 }
-func (r *Recorder) OnMedia(mt string, d []byte)        { r.add(E{K: Media, S: mt, Data: cp(d)}) }
-func (r *Recorder) OnCustomBinary(t uint64, d []byte)  { r.add(E{K: CustomBin, U: t, Data: cp(d)}) }
-func (r *Recorder) OnCustomText(t uint64, d string)    { r.add(E{K: CustomText, U: t, Data: []byte(d)}) }
-func (r *Recorder) OnArrayBegin(at events.ArrayType)   { r.add(E{K: ArrayBegin, AT: at}) }
-func (r *Recorder) OnMediaBegin(mt string)             { r.add(E{K: MediaBegin, S: mt}) }
-func (r *Recorder) OnCustomBegin(at events.ArrayType, t uint64) { r.add(E{K: CustomBegin, AT: at, U: t}) }
-func (r *Recorder) OnArrayChunk(n uint64, more bool)   { r.add(E{K: Chunk, U: n, B: more}) }
-func (r *Recorder) OnArrayData(d []byte)               { r.add(E{K: Data, Data: cp(d)}) }
-func (r *Recorder) OnError()                           { r.add(E{K: Error}) }
+func (r *Recorder) OnMedia(mt string, d []byte)       { r.add(E{K: Media, S: mt, Data: cp(d)}) }
+func (r *Recorder) OnCustomBinary(t uint64, d []byte) { r.add(E{K: CustomBin, U: t, Data: cp(d)}) }
+func (r *Recorder) OnCustomText(t uint64, d string)   { r.add(E{K: CustomText, U: t, Data: []byte(d)}) }
+func (r *Recorder) OnArrayBegin(at events.ArrayType)  { r.add(E{K: ArrayBegin, AT: at}) }
+func (r *Recorder) OnMediaBegin(mt string)            { r.add(E{K: MediaBegin, S: mt}) }
+func (r *Recorder) OnCustomBegin(at events.ArrayType, t uint64) {
+	r.add(E{K: CustomBegin, AT: at, U: t})
+}
+func (r *Recorder) OnArrayChunk(n uint64, more bool) { r.add(E{K: Chunk, U: n, B: more}) }
+func (r *Recorder) OnArrayData(d []byte)             { r.add(E{K: Data, Data: cp(d)}) }
+func (r *Recorder) OnError()                         { r.add(E{K: Error}) }
